@@ -74,7 +74,7 @@ def load_known():
 
 def match_known(known, prop, cls, detail):
     for k in known:
-        if k.get('status') != 'open':
+        if k.get('status') != 'open' or k.get('replay_only'):
             continue
         if k.get('property') != prop and prop not in k.get('also_properties', []):
             continue
